@@ -10,6 +10,7 @@ package main
 
 import (
 	"bytes"
+	"os"
 	"runtime"
 	"strconv"
 	"strings"
@@ -150,4 +151,42 @@ func waitClientsGone(s *Sched, n int) {
 		}
 		stillBlocked(s, t)
 	}
+}
+
+// enumSchedules lists every maximal schedule by stateless depth-first search:
+// exec runs a prefix, continues it with the lowest candidate until nothing is
+// schedulable and returns the executed schedule with the candidate set seen
+// before each step.
+func enumSchedules(exec func(prefix []int) (executed []int, cands [][]int), limit int) [][]int {
+	var out [][]int
+	var rec func(prefix []int)
+	rec = func(prefix []int) {
+		if limit > 0 && len(out) >= limit {
+			return
+		}
+		ex, cands := exec(prefix)
+		ex = append([]int(nil), ex...)
+		out = append(out, ex)
+		for d := len(ex) - 1; d >= len(prefix); d-- {
+			for _, c := range cands[d] {
+				if c > ex[d] {
+					rec(append(append([]int(nil), ex[:d]...), c))
+				}
+			}
+		}
+	}
+	rec(nil)
+	return out
+}
+
+func argTier() string {
+	for i, a := range os.Args {
+		if a == "--tier" && i+1 < len(os.Args) {
+			return os.Args[i+1]
+		}
+		if strings.HasPrefix(a, "--tier=") {
+			return a[len("--tier="):]
+		}
+	}
+	return "quick"
 }
